@@ -1,12 +1,12 @@
 PROP = dict(
-    id='C03', level='exploration',
-    pyvc=['contracts.c03'],
+    id='C15', level='exploration',
+    pyvc=[],
     finite=[],
-    bounded='bounded.c03',
+    bounded='bounded.c15',
     bounded_budget=dict(quick=45, thorough=420),
     assumptions=[],
     trusted_base=['z3 5.1 / cvc5 1.0.3', 'pyvc symbolic executor and its encoding of Python (DESIGN.md section 2.3)', 'CPython 3.12, PLY 3.11 (A-PLY)'],
-    manifest=dict(text='Bounded: loaded links compared with the key-matching rule on all multisets of rows over null/unset/zero/ordinary keys; all permutations of <=6 statements, all splits, 8 packaging layouts; API and clone routes.',
-                  note='PLY, os.walk, zipfile (A-IO).',
+    manifest=dict(text='Bounded: every callable kind x return form x 11 call contexts, recursion and mutual recursion across all kind pairs, random call graphs of depth <=3, enumerators/constants under every row permutation of the model file.',
+                  note='PLY (A-PLY); pure callees inside where clauses.',
                   technique='bounded stand-in: run-time contracts on the real functions driven by exhaustive small-scope enumeration (labelled bounded, never counted as proved)'),
 )
